@@ -17,7 +17,7 @@ SubLayout(k) ==
           <<StepD("in1", <<"k3">>, 1, << >>, <<Simple("CREATE", PA)>>)>>, << >>)
 
 FileStates == {"absent", "valid", "other", "flipped", "tampered", "misfiled", "multi",
-               "sublayout", "garbage"}
+               "badplusother", "sublayout", "garbage"}
 StatesFor(k) == IF k = "kx" THEN {"absent", "valid"}
                 ELSE IF Tier = "quick" THEN FileStates \ {"garbage"} ELSE FileStates
 
@@ -29,6 +29,8 @@ Entries(k, st) ==
     [] st = "tampered"  -> <<Entry(<< >>, "s1", k, [S1Link(<<GoodSig(k)>>) EXCEPT !.edit = "product"])>>
     [] st = "misfiled"  -> <<Entry(<< >>, "s1", k, S1Link(<<GoodSig(Other(k))>>))>>
     [] st = "multi"     -> <<Entry(<< >>, "s1", k, S1Link(<<GoodSig(Other(k)), GoodSig(k)>>))>>
+    \* the named key's own signature does not verify, a co-functionary's does
+    [] st = "badplusother" -> <<Entry(<< >>, "s1", k, S1Link(<<BadSig(k), GoodSig(Other(k))>>))>>
     [] st = "sublayout" -> <<Entry(<< >>, "s1", k, SubLayout(k)),
                              Entry(<<"s1." \o k>>, "in1", "k3", LinkD("in1", <<GoodSig("k3")>>, {}, ProdA))>>
     [] st = "garbage"   -> <<Entry(<< >>, "s1", k, Garbage)>>
